@@ -57,6 +57,7 @@ func (a *analysis) ob(k string, n int) {
 
 func analyse(rr *runRec) *analysis {
 	sc := rr.sc
+	rr.resolveHooks()
 	rr.mu.Lock()
 	outs := append([]OutRec(nil), rr.outs...)
 	hooks := append([]HookRec(nil), rr.hooks...)
@@ -137,6 +138,7 @@ func (a *analysis) hist() []OpRec {
 }
 
 func (a *analysis) hooks() []HookRec {
+	a.rr.resolveHooks()
 	a.rr.mu.Lock()
 	defer a.rr.mu.Unlock()
 	return append([]HookRec(nil), a.rr.hooks...)
